@@ -84,7 +84,7 @@ def grid_kwargs(grid):
         from .faces import fc_dict
 
         fcs = grid["faces"]
-        kw["face_connections"] = fc_dict(fcs["table"], fcs["n"], nm(fcs["dim"]), nm, order=fcs.get("order"))
+        kw["face_connections"] = fc_dict(fcs["table"], fcs["n"], nm(fcs["dim"]), nm, order=fcs.get("order"), npbool=bool(fcs.get("npbool")))
     return kw
 
 
